@@ -25,6 +25,9 @@ META = dict(
          "ShallRotate/MarkRotated/OutdatedFiles, backup names come from a driver-supplied RotateRule wrapper in the real "
          "format with synthetic increasing times; a few cases per run use the real BackupFilename with file starts "
          "1.1 s apart (size rule, incl. the public megabyte constructor) or one simulated day change (daily rule). "
+         "Family 'config': the writers are built by newFileWriter(Config{Rotation,MaxSize MB,MaxBackups,KeepDays,Compress}) "
+         "(handleOptions + createOutput, the path of Setup with Mode file) for the size and the daily rule and judged "
+         "against the configured values. "
          "Not covered: writes racing the post-rotation goroutine (every Write is followed by a barrier), records "
          "still queued at Close (outside the statement), mixed gz/plain pre-existing backups, a run that spans "
          "local midnight.",
@@ -39,14 +42,14 @@ FINISH = dict(rule="histories = complete TLC enumeration (BFS over the history v
 
 def tla_cfg(c):
     return ('[rule |-> "%s", maxSize |-> %d, maxBackups |-> %d, days |-> %d, gzip |-> %s, delim |-> "%s", '
-            'names |-> "%s", pre |-> <<%s>>, precur |-> %d]') % (
+            'names |-> "%s", pre |-> <<%s>>, precur |-> %d, via |-> "%s"]') % (
         c["rule"], c["maxSize"], c["maxBackups"], c["days"], "TRUE" if c["gzip"] else "FALSE", c.get("delim", "-"),
-        c.get("names", "counter"), ", ".join(str(a) for a in c.get("pre", [])), c.get("precur", 0))
+        c.get("names", "counter"), ", ".join(str(a) for a in c.get("pre", [])), c.get("precur", 0), c.get("via", ""))
 
 
-def C(rule, maxSize=0, maxBackups=0, days=0, gzip=False, pre=(), precur=0, names="counter", delim="-"):
+def C(rule, maxSize=0, maxBackups=0, days=0, gzip=False, pre=(), precur=0, names="counter", delim="-", via=""):
     return dict(rule=rule, maxSize=maxSize, maxBackups=maxBackups, days=days, gzip=gzip, pre=list(pre), precur=precur,
-                names=names, delim=delim)
+                names=names, delim=delim, via=via)
 
 
 # ------------------------------------------------------------------------------- model check
@@ -148,8 +151,15 @@ def plans(ctx):
     real_size = [C("size", 64, maxBackups=2, pre=[49, 1], names="real"), C("size", 64, days=2, gzip=True, pre=[49, 1], names="real")]
     real_mb = [C("size", MB, maxBackups=1, gzip=True, names="real"), C("size", MB, names="real")]
     real_daily = [C("daily", days=2, gzip=True, pre=[96, 24], names="real"), C("daily", names="real", delim="_")]
+    # the logging-configuration path (newFileWriter(Config) = handleOptions + createOutput, as Setup(Mode "file")):
+    # MaxSize is in MB there, names are real -> size-triggered rotations 1.1 s apart
+    def CF(rule, **kw):
+        return C(rule, names="real", via="config", **kw)
     P = []
     if ctx.quick:
+        P.append(dict(name="config", confs=[CF("size", maxSize=MB, maxBackups=2, pre=[1]),
+                                            CF("daily", days=2, gzip=True, pre=[96, 24])],
+                      sizes=[600 * 1024], maxops=4, maxday=1))
         P.append(dict(name="size5", confs=size_confs, sizes=S, maxops=5, maxday=0))
         P.append(dict(name="daily5", confs=daily_confs, sizes=[8, 40], maxops=5, maxday=5))
         P.append(dict(name="sim12", confs=size_confs + daily_confs, sizes=S, maxops=12, maxday=12, simulate=400))
@@ -169,6 +179,10 @@ def plans(ctx):
         P.append(dict(name="realsize", confs=real_size, sizes=[32, 65], maxops=4, maxday=0, pick=48))
         P.append(dict(name="realmb", confs=real_mb, sizes=[16, MB // 2, MB, MB + 1], maxops=4, maxday=0, pick=32))
         P.append(dict(name="realdaily", confs=real_daily, sizes=[8, 40], maxops=4, maxday=1))
+        P.append(dict(name="config", confs=[CF("size", maxSize=MB, maxBackups=mb, days=d, gzip=gz, pre=pre)
+                                            for mb in (2, 3) for (d, gz, pre) in ((0, False, [1]), (2, True, [49, 1]))]
+                                           + [CF("daily", days=2, gzip=True, pre=[96, 24]), CF("daily")],
+                      sizes=[300 * 1024, 600 * 1024], maxops=5, maxday=1, pick=40))
     return P
 
 
@@ -202,6 +216,8 @@ def run(ctx):
         raise core.Infra("vacuous run: the real logger never rotated")
     if tot.get("daychanges", 0) == 0:
         raise core.Infra("vacuous run: no simulated day change")
+    if tot.get("config_path_size", 0) == 0 or tot.get("config_path_daily", 0) == 0 or tot.get("config_path_rotations", 0) < 3:
+        raise core.Infra("vacuous run: the logging-configuration path (size and daily) was not exercised: %s" % tot)
     ctx.notes["driver_totals"] = tot
     ctx.states = sum(t["distinct"] for t in ctx.tlc_runs)
     ctx.transitions = sum(t["generated"] for t in ctx.tlc_runs)
